@@ -7,6 +7,7 @@
 -- function does not break them.
 import Winter.Model.Security
 import Winter.Gen.Security
+import Winter.Gen.ProofOpts
 import WinterProofs.Lemmas.GenTactic
 
 namespace C18G
@@ -107,5 +108,41 @@ theorem gen_conjectured_panics_iff (o : Options) (bits n cr : Nat) (hq : o.numQu
         have := (gen_conjectured_ok_iff o bits n cr _ hq).mpr ⟨hk, rfl⟩
         rw [h] at this; cases this
     · intro _; exact ⟨s, rfl⟩
+
+/-- ★ `ProofOptions::new` as regenerated from air/src/options.rs on this run (Winter/Gen/ProofOpts.lean):
+    the conjunction of its assertions — together with the no-overflow condition of
+    `fri_remainder_max_degree + 1` — is the model's `Options.accepted`, for ALL arguments (`en` = the
+    `FieldExtension` argument, which no assertion reads) -/
+theorem gen_new_ok_eq_accepted (q b g : Nat) (e : Ext) (ff fr en : Nat) :
+    Gen.ProofOpts.new_ok q b g en ff fr = Options.accepted ⟨q, b, g, e, ff, fr⟩ := by
+  unfold Options.accepted MAX_NUM_QUERIES MIN_BLOWUP_FACTOR MAX_BLOWUP_FACTOR MAX_GRINDING_FACTOR
+    FRI_MIN_FOLDING_FACTOR FRI_MAX_FOLDING_FACTOR FRI_MAX_REMAINDER_DEGREE
+  unfold_gen Gen.ProofOpts
+  have hp : ∀ x, Gen.isPow2 x = isPow2 x := fun _ => rfl
+  simp only [hp, gt_iff_lt, ge_iff_le]
+  rw [Bool.eq_iff_iff]
+  simp only [Bool.and_eq_true, decide_eq_true_eq]
+  constructor <;> intro h <;> grind
+
+/-- the constructor stores its arguments: under the assertions no `as u8` cast truncates -/
+theorem gen_new_fields (q b g en ff fr : Nat) (h : Gen.ProofOpts.new_ok q b g en ff fr = true) :
+    Gen.ProofOpts.new q b g en ff fr = (q, b, g, en, ff, fr) := by
+  revert h
+  unfold_gen Gen.ProofOpts
+  simp only [Bool.and_eq_true, decide_eq_true_eq, gt_iff_lt, ge_iff_le]
+  intro h
+  have e1 : q % 256 = q := Nat.mod_eq_of_lt (by omega)
+  have e2 : b % 256 = b := Nat.mod_eq_of_lt (by omega)
+  have e3 : g % 256 = g := Nat.mod_eq_of_lt (by omega)
+  have e4 : ff % 256 = ff := Nat.mod_eq_of_lt (by omega)
+  have e5 : fr % 256 = fr := Nat.mod_eq_of_lt (by omega)
+  rw [e1, e2, e3, e4, e5]
+
+/-- the accessors the estimate reads return the stored fields (`as usize` / `as u32` of a `u8` widen) -/
+theorem gen_accessors (x : Nat) :
+    Gen.ProofOpts.num_queries x = x ∧ Gen.ProofOpts.blowup_factor x = x ∧ Gen.ProofOpts.grinding_factor x = x ∧
+    Gen.ProofOpts.field_extension x = x := by
+  unfold_gen Gen.ProofOpts
+  simp
 
 end C18G
